@@ -4,6 +4,8 @@ import (
 	"encoding/json"
 
 	"verif/sim/simkit"
+	"verif/sim/worlds/bw"
+	"verif/sim/worlds/bwrun"
 	"verif/sim/worlds/pw"
 	"verif/sim/worlds/pwrun"
 )
@@ -16,6 +18,12 @@ func runOther(req *request) *simkit.Outcome {
 			return &simkit.Outcome{Harness: "bad pw scenario: " + err.Error()}
 		}
 		return pwrun.Run(&sc)
+	case "bw":
+		var sc bw.Scenario
+		if err := json.Unmarshal(req.Scenario, &sc); err != nil {
+			return &simkit.Outcome{Harness: "bad bw scenario: " + err.Error()}
+		}
+		return bwrun.Run(&sc)
 	}
 	return &simkit.Outcome{Harness: "unknown world " + req.World}
 }
